@@ -141,7 +141,16 @@ class Multi(Histories):
         mt = dict(classes=mm, files={}, base=mb[0], context=None)
         mt['ops'] = [{'op': 'multi', 'bases': mb}] + [{'op': 'value', 'chain': ch, 'pick': 2} for ch in (0, 1, 0, 1)] + \
                     [{'op': 'restart'}, {'op': 'multi', 'bases': mb[::-1]}] + [{'op': 'value', 'chain': ch, 'pick': 2} for ch in (1, 0)]
-        return [c, d, g, n, sh, nc, lf, mt]
+        # a task that is not symmetric in two mountings of one pipeline; the member configs mount the variants the other way round
+        ab = [dict(K(0, 'Train', params=[P('speed')]), name='train'),
+              dict(K(1, 'Compare', meta_inputs=[{'name': 'a::train'}, {'name': 'b::train'}]), name='compare')]
+        abf = {'fast.json': {'tasks': ['@M.Train'], 'speed': 1}, 'slow.json': {'tasks': ['@M.Train'], 'speed': 2}}
+        abb = [{'name': 'one', 'data': {'tasks': ['@M.Compare'], 'uses': ['fast.json as a', 'slow.json as b']}},
+               {'name': 'two', 'data': {'tasks': ['@M.Compare'], 'uses': ['slow.json as a', 'fast.json as b']}}]
+        abc = dict(classes=ab, files=abf, base=abb[0], context=None)
+        abc['ops'] = [{'op': 'multi', 'bases': abb}] + [{'op': 'value', 'chain': ch, 'pick': k} for ch in (0, 1, 0) for k in range(3)] + \
+                     [{'op': 'restart'}, {'op': 'multi', 'bases': abb[::-1]}] + [{'op': 'value', 'chain': ch, 'pick': k} for ch in (1, 0) for k in range(3)]
+        return [c, d, g, n, sh, nc, lf, mt, abc]
 
     def oracle(self, case, obs):
         m = multi_oracle(case, obs)
